@@ -115,7 +115,11 @@ static void scen_stream_fd() {
     if (!vfs::world().faults.short_read) vfs::world().faults.short_read = (uint32_t)pick({0, 2, 8}, "A.regular.short");
     VS_PROBE("read_helpers_on_regular_file");
   } else {
-    fd = vfs::open_stream_fd(D, chunk_mode, chunk);
+    // a pipe-like stream; one in six is non-blocking with a writer that is sometimes not ready: read()
+    // then fails with EAGAIN, which means "more will come", never "end of data"
+    bool nonblocking = choose(6, "A.nonblocking") == 5;
+    fd = vfs::open_stream_fd(D, chunk_mode, chunk, nonblocking);
+    if (nonblocking) vfs::world().faults.eagain = (uint32_t)pick({4, 2, 16}, "A.eagain");
   }
   vfs::OpenFile* of = vfs::fd_entry(fd);
   if (chunk_mode) mark_nontrivial();
@@ -1377,6 +1381,6 @@ int main(int argc, char** argv) {
   e.expected_probes = {"read_all_fd.saw_short_read", "read_all_fd.crossed_16k_block", "read_all_file.error_mid_stream", "read_all_file.crossed_16k_block",
       "fgets.line_longer_than_block", "fgets.line_longer_than_two_blocks", "fgets.line_exactly_block", "readx.threw_on_short", "save_file.threw_on_write_fault",
       "load_file.threw_on_read_fault", "unlink.threw_on_eacces", "scoped_fd.move_assign_over_open", "scoped_fd.failed_open", "poll.readd_existing", "poll.remove_present", "read_all_fd.real_pipe", "read_helpers_on_regular_file", "tree_with_fifo", "scoped_fd.holds_descriptor_0"};
-  e.expected_faults = {"short_read", "short_write", "EIO@read", "EINTR@read", "ENOSPC@write", "EINTR@write", "EINTR@poll", "EACCES@unlink", "EACCES@rmdir", "concurrent_delete", "ENOSPC@capacity", "EINTR@close", "staggered_pipe_write"};
+  e.expected_faults = {"short_read", "short_write", "EIO@read", "EINTR@read", "ENOSPC@write", "EINTR@write", "EINTR@poll", "EACCES@unlink", "EACCES@rmdir", "concurrent_delete", "ENOSPC@capacity", "EINTR@close", "staggered_pipe_write", "EAGAIN@read"};
   return driver_main(argc, argv, e);
 }
